@@ -252,6 +252,11 @@ BYTES_FAMILIES = [
     ['0f6fc1', '660f6fc1', 'f30f6fc1', '0f7fc1', '660f7fc1', '0f10c1', '660f10c1', 'f30f10c1', 'f20f10c1', '0f28c1', '660f28c1'],
 ]
 BYTES_FAMILIES.append(['648b03', '268a01', '2e8a04', '658b0d00000000', 'a4', 'f3ab', 'a5', '8b03', '36890424', '3e8b4500', '64a100000000'])
+BYTES_FAMILIES += [
+    ['9c', '669c', '9f', '9e', '9d', '669d', '9c', '9f'],                                           # flag images: pushfd/pushfw/lahf/sahf/popfd
+    ['0f1200', '0f12c1', '0f1600', '0f16ca', '0f134104', '0f174104', '660f1200', '660f1600'],       # movlps/movhlps/movhps/movlhps forms
+    ['66ff10', '66ffd0', '66e80001', 'ff10', 'ffd0', 'e800010000', '66ff20', 'ff20', '7410', '66e90001'],  # 16- and 32-bit calls and jumps
+]
 def gen_family_pool(rng, n=4):
     fam = rng.choice(BYTES_FAMILIES)
     return [rng.choice(fam) for _ in range(n)]
@@ -265,6 +270,8 @@ LINE_FAMILIES = [
     ['push 1 2 ecx', 'mov , eax', 'push ) ecx', 'mov eax, ebx', 'push ecx', 'lea , [eax]', 'mov eax ] ebx', 'inc , ', 'push 1', 'mov ecx, eax'],
     ['mov eax, [ebx#4]', 'push 12$', 'mov eax, `x`', 'mov eax, [ebx', 'mov eax, "ebx"', 'push ~1', 'mov eax, ebx', 'push 12', 'mov eax, [ebx+4]', 'lea eax, [ebx!]'],
     ['mov al, 1', 'mov ax, 1', 'mov eax, 1', 'mov BYTE PTR [eax], 1', 'mov WORD PTR [eax], 1', 'mov DWORD PTR [eax], 1', 'push 1', 'push WORD PTR 1', 'pushw 1'],
+    ['cmp dx, 65534', 'cmp edx, 65534', 'mov ax, 65534', 'mov eax, 65534', 'add dx, 65534', 'add edx, 65534', 'cmp dl, 254', 'cmp edx, 254', 'push 65534'],
+    ['mov {eax}, ~ebx!!!', 'push !eax!', 'mov eax, ebx!', 'mov eax`, ebx', 'mov e@x, ebx##', 'mov eax, ebx', 'push ##1##', 'lea eax, [ebx!!+!!4]'],
     ['jmp 2', 'jg 2', 'call 2', 'jmp eax', 'call eax', 'jmp [eax]', 'call [eax]', 'jmp DWORD PTR [eax]', 'loop 2', 'jecxz 2'],
     ['fadd st, st(1)', 'fadd st(1), st', 'fsub st, st(2)', 'fsubr st, st(2)', 'fsub st(2), st', 'fdiv st, st(2)', 'fdivr st(2), st', 'faddp st(1), st', 'fadd DWORD PTR [eax]', 'fadd QWORD PTR [eax]'],
 ]
@@ -272,6 +279,8 @@ ATT_LINE_FAMILIES = [
     ['pxor %mm1, %mm0', 'pxor %xmm1, %xmm0', 'paddw %mm3, %mm2', 'paddw %xmm3, %xmm2', 'movd %mm1, %eax', 'movd %xmm1, %eax', 'movq %mm1, %mm0', 'movq %xmm1, %xmm0'],
     ['pushl ) %ecx', 'pushl 1 2 %ecx', 'pushl %ecx', 'movl , %eax', 'movl %ebx, %eax', 'incl', 'rep', 'lock', 'ret', 'nop'],
     ['movl %eax, #5', 'movl 4[%ebx], %eax', 'pushl $12`', 'movl (%ebx, %eax', 'movl %ebx, %eax', 'pushl $12', 'movl 4(%ebx), %eax', 'movl ~(%ebx), %eax'],
+    ['cmpw $0xFFFE, %dx', 'cmpl $0xFFFE, %edx', 'cmpb $0xFE, %dl', 'movw $0xFFFE, %ax', 'movl $0xFFFE, %eax', 'addw $0xFFFE, %dx', 'addl $0xFFFE, %edx'],
+    ['movl %ebx!, %eax', 'movl {%ebx}, ~%eax!!', 'pushl !%eax!', 'movl %ebx, %eax', 'pushl ##$1##', 'movl %e@x, %ebx##'],
     ['movl (%ebx,%ecx), %eax', 'movl (%ecx,%ebx), %eax', 'leal (%ebx,%ecx), %edx', 'leal (%ecx,%ebx), %edx', 'movl 1000(%esi,%ebp), %eax', 'movl 1000(%ebp,%esi), %eax'],
     ['fsub %st, %st(2)', 'fsubr %st, %st(2)', 'fsub %st(2), %st', 'fdiv %st, %st(2)', 'fdivr %st, %st(2)', 'fadds (%eax)', 'faddl (%eax)'],
 ]
